@@ -127,7 +127,9 @@ Fixpoint sp_replace (l : list species) (s : species) : list species :=
 
 (* ---------- floats ---------- *)
 Definition two52 : float := 0x1p+52%float.
-(* math.Floor for finite x *)
+(* math.Floor, for every x: NaN, +-Inf, +-0 and everything of magnitude >= 2^52 (integral already) are
+   returned unchanged; otherwise the exact integer below, with Floor(x) = +0 for 0 < x < 1.
+   [f_floor_Z] is only ever applied here, to a finite nonzero x with |x| < 2^52. *)
 Definition ffloor (x : float) : float :=
   if PrimFloat.leb two52 (PrimFloat.abs x) then x
   else match Prim2SF x with
@@ -136,13 +138,19 @@ Definition ffloor (x : float) : float :=
                               else f_of_Z z
        | _ => x
        end.
-(* math.Mod(x, 1.0) for finite x: x - trunc(x), sign of x *)
+(* math.Mod(x, 1.0), for every x: NaN for NaN and for +-Inf (math.Mod: "Mod(+-Inf, y) = NaN"); a zero
+   with the sign of x when x is integral (|x| >= 2^52, x = +-0, or an integer below 2^52: the result of
+   Mod carries the sign of x); otherwise x - trunc(x), which is exact.  [f_trunc_Z] is applied to
+   finite |x| < 2^52 only, so no out-of-range conversion is involved. *)
 Definition fmod1 (x : float) : float :=
-  if PrimFloat.leb two52 (PrimFloat.abs x) then (if PrimFloat.ltb x 0%float then neg_zero else 0%float)
-  else match Prim2SF x with
-       | S754_finite _ _ _ => PrimFloat.sub x (f_of_Z (f_trunc_Z x))
-       | _ => x
-       end.
+  match Prim2SF x with
+  | S754_finite _ _ _ =>
+    if PrimFloat.leb two52 (PrimFloat.abs x) then (if PrimFloat.ltb x 0%float then neg_zero else 0%float)
+    else let r := PrimFloat.sub x (f_of_Z (f_trunc_Z x)) in
+         if PrimFloat.ltb x 0%float && PrimFloat.eqb r 0%float then neg_zero else r
+  | S754_infinity _ => PrimFloat.nan
+  | _ => x
+  end.
 
 (* ---------- sort.Sort on short slices: stable insertion sort ---------- *)
 (* [lt a b] is data.Less(a, b) of the un-reversed order; sort.Reverse makes the result descending *)
@@ -201,6 +209,10 @@ Definition adjust_fitness (o : options) (h : list organism) (s : species) : res 
     let s1 := if PrimFloat.ltb (sp_maxfit s) (o_orig top)
               then sp_with_improved s (o_orig top) (sp_age s) else s in
     let num_parents := f_trunc_Z (ffloor (PrimFloat.add (PrimFloat.mul (o_survival o) (f_of_Z n)) 1%float)) in
+    (* for c := numParents; c < len(s.Organisms); c++ { s.Organisms[c].toEliminate = true }: the species is
+       not empty here, so a negative numParents (negative SurvivalThresh, or the conversion of NaN / +-Inf /
+       a product beyond 2^63: math.MinInt64) indexes s.Organisms[numParents]: index out of range *)
+    if Z.ltb num_parents 0 then GoPanic 2 else
     let marked := match mark_elim sorted 0 num_parents with
                   | t :: r => o_with_champ t true :: r
                   | [] => []
@@ -219,7 +231,13 @@ Fixpoint adjust_all (o : options) (h : list organism) (l : list species) : res (
 
 (* ---------- Species.countOffspring ---------- *)
 (* written once over a small number structure: the float instance is what runs against Go, the
-   real instance (proofs/QuotaSpec.v) is what the apportionment theorems of C09 are about *)
+   real instance (proofs/QuotaSpec.v) is what the apportionment theorems of C09 are about.
+   The conversion int(math.Floor(x)) of the float instance is F64.f_trunc_Z (amd64: math.MinInt64 for NaN,
+   +-Inf and |x| >= 2^63).  NOT MODELLED: Go's int additions wrap modulo 2^64, the counts here are
+   unbounded integers.  The two agree as long as every partial sum stays inside [-2^63, 2^63); they
+   differ when two or more out-of-range conversions meet in one sum (MinInt64 + MinInt64 = 0 in Go,
+   -2^64 here: e.g. two members with ExpectedOffspring NaN), in [expectedOffspring += ...] below, in
+   [totalExpected += ...] of count_all and in [finalExpected += ...] of purge_zero_offspring. *)
 Record qnum (F : Type) : Type := {
   q_add : F -> F -> F;
   q_sub : F -> F -> F;
